@@ -119,7 +119,7 @@ def check_valid(pc, goal, want_model=True, all_backends=False, z3_timeout_ms=Non
     if quantified and not all_backends:
         # quantified VCs: plain e-matching without the automatic strategy selection is the most stable configuration
         # (seconds instead of timeouts); only 'unsat' is used from this run
-        if ematch_check(pc, neg, timeout_ms=4000, auto_config=False) == 'unsat':
+        if ematch_check(pc, neg, timeout_ms=1000 if short else 4000, auto_config=False) == 'unsat':
             return {'backend': 'z3-%s (e-matching, no auto-config)' % z3.get_version_string(), 'model': None, 'detail': '',
                     'verdict': 'proved', 'all': {'z3-ematch': 'proved'}, 'ms': int((time.time() - t0) * 1000)}
     s = z3.Solver()
